@@ -14,10 +14,19 @@ the executable instance of the model (reported without failing input).
 from .runner import Stream
 from . import gen
 
-RULE_C08 = ("P2_thread/B_thread: every (x<=X, y, low, high<=x/y+2) exhaustively (X=150 quick / 500 thorough) incl. the "
+RULE_C08 = ("P2_thread/B_thread: every (x<=X, y, low, high<=x/y+2) exhaustively (X=250 quick / 500 thorough) incl. the "
             "ASSERT failures low=0, low>=high; chains of chunks whose boundaries sit on x/q, x/q+1 for primes q next to y, "
             "sqrt(x) and inside, single-integer chunks, low=sqrt(x), high=x/y, for x to 1e10 (64 and 128 bit); random "
             "chains for x to 1e12; distinct = distinct op lines")
+
+
+TRUSTED_P2B = ["P2/B loops (WP p2b): primesieve::iterator is modelled by its contract IterSpec (prev_prime = largest prime not "
+               "yet passed, generate_next_primes = non-empty increasing buffer of exactly the next primes; batch sizes arbitrary) — "
+               "the sieving core behind it is C18's subject; pi_noprint is a parameter assumed = pi below x",
+               "harness/ops_p2loop.cpp compiles src/P2.cpp and src/gourdon/B.cpp into the harness (renamed extern entry points) to "
+               "reach the file-local P2_thread / B_thread; translator/extract_p2loop.py checks their statement sequences",
+               "executable mirror = defining sum is proved for tables reaching 2*(x/(start+1)+1)+2 (Bertrand); beyond that the driver's "
+               "table is sized by known prime gaps and mirror = def = real code is observed per op, not proved"]
 
 
 def _bothname(op):
@@ -52,7 +61,7 @@ def _two_answers(name, ops, timeout=900, classify=None):
 
 
 def exhaustive_ops(ctx):
-    X = 150 if ctx.quick else 500
+    X = 250 if ctx.quick else 500
     ops = []
     for x in range(0, X + 1):
         sq = gen.isqrt(x)
@@ -79,9 +88,9 @@ def boundary_ops(ctx):
     rng = ctx.rng
     ops = []
     q_ = ctx.quick
-    xs = gen.structured_x(rng, 30, 10 ** 6, 150 if q_ else 1200)
-    xs += gen.structured_x(rng, 10 ** 6, 10 ** 8, 100 if q_ else 800)
-    xs += gen.structured_x(rng, 10 ** 8, 10 ** 10, 20 if q_ else 150)
+    xs = gen.structured_x(rng, 30, 10 ** 6, 500 if q_ else 2000)
+    xs += gen.structured_x(rng, 10 ** 6, 10 ** 8, 300 if q_ else 1500)
+    xs += gen.structured_x(rng, 10 ** 8, 10 ** 10, 60 if q_ else 300)
     # squares of primes and neighbours: sqrt(x) itself is (not) a prime
     ps_small = gen.primes_upto(100000)
     for p in rng.sample(ps_small[:2000], 8 if q_ else 60) + rng.sample(ps_small, 2 if q_ else 10):
@@ -135,7 +144,7 @@ def random_chain_ops(ctx):
     rng = ctx.rng
     ops = []
     # moderate x: many chains with random boundaries
-    for x in gen.structured_x(rng, 10 ** 4, 10 ** 9, 60 if ctx.quick else 500):
+    for x in gen.structured_x(rng, 10 ** 4, 10 ** 9, 150 if ctx.quick else 800):
         sq, x13 = gen.isqrt(x), gen.iroot(3, x)
         y = rng.choice((x13, rng.randint(x13, sq), rng.randint(max(1, x13 // 3), x13 + 1)))
         xy = x // max(y, 1)
@@ -149,7 +158,7 @@ def random_chain_ops(ctx):
             ops.append("%s %s %d %d %s" % (rng.choice(("p2threads", "bthreads")), rng.choice(("64", "128")), x, y,
                                            " ".join(map(str, bs))))
     # large x (to 1e12): one table of ~1e7 per op on the model side, so few of them
-    for x in gen.structured_x(rng, 10 ** 11, 10 ** 12, 3 if ctx.quick else 25):
+    for x in gen.structured_x(rng, 10 ** 11, 10 ** 12, 8 if ctx.quick else 40):
         sq = gen.isqrt(x)
         y = rng.randint(x // (9 * 10 ** 6), x // (4 * 10 ** 6))
         xy = x // y
@@ -198,6 +207,15 @@ def run_ops(ctx):
                 for (t, pr) in combos:
                     ops.append("%s %s %d %d %d %d %d 4000" % (kind, rng.choice(("64", "128")), x, y, t, pr, rng.getrandbits(30)))
                 groups.append((start, len(ops) - start))
+    # histories with 5-6 chunks: x / y ~ 4.5e7 (the largest table the model side builds, ~14 s per op)
+    for x in gen.structured_x(rng, 10 ** 11, 10 ** 12, 1 if ctx.quick else 2):
+        y = rng.randint(x // (50 * 10 ** 6) + 1, x // (40 * 10 ** 6))
+        for kind, t in ((("p2run", 4),) if ctx.quick else (("p2run", 4), ("brun", 8))):
+            start = len(ops)
+            ops.append("%s %s %d %d %d 0 %d 4000" % (kind, rng.choice(("64", "128")), x, y, t, rng.getrandbits(30)))
+            if not ctx.quick:
+                ops.append("%s %s %d %d 1 1 %d 4000" % (kind, rng.choice(("64", "128")), x, y, rng.getrandbits(30)))
+            groups.append((start, len(ops) - start))
     return ops, groups
 
 
